@@ -153,6 +153,7 @@ fn parse_u128(s: &str) -> u128 {
 thread_local! {
   /// txid of the transaction being realised (for `IdRef::Own`)
   static OWN_TXID: std::cell::Cell<Option<Txid>> = const { std::cell::Cell::new(None) };
+  static OWN_INPUTS: std::cell::RefCell<Vec<OutPoint>> = const { std::cell::RefCell::new(Vec::new()) };
 }
 
 impl World {
@@ -468,6 +469,25 @@ impl World {
     }
     let known = m.inscr.known_ids();
     let value = |id: ord::InscriptionId| id_value(id);
+    if let IdRef::Carried(k) = r {
+      let inputs = OWN_INPUTS.with(|c| c.borrow().clone());
+      let carried: Vec<ord::InscriptionId> = m
+        .inscr
+        .list
+        .iter()
+        .filter(|i| {
+          i.sat
+            .and_then(|sat| m.locate(sat))
+            .is_some_and(|(o, _)| inputs.contains(&o))
+        })
+        .map(|i| i.id)
+        .collect();
+      return if carried.is_empty() {
+        self.resolve_id(m, &IdRef::Known(*k))
+      } else {
+        value(carried[*k as usize % carried.len()])
+      };
+    }
     match r {
       IdRef::Known(k) => {
         if known.is_empty() {
@@ -495,7 +515,7 @@ impl World {
         index: *k % 3,
       }),
       IdRef::RawBytes(b) => b.clone(),
-      IdRef::Own(_) => unreachable!(),
+      IdRef::Own(_) | IdRef::Carried(_) => unreachable!(),
     }
   }
 
@@ -929,10 +949,12 @@ impl World {
     }
     // the txid does not commit to the witnesses: envelopes may refer to it
     OWN_TXID.with(|c| c.set(Some(tx.compute_txid())));
+    OWN_INPUTS.with(|c| *c.borrow_mut() = taken.clone());
     for (txin, i) in tx.input.iter_mut().zip(&spec.inputs) {
       txin.witness = self.witness_for(m, &i.witness, total_out, &input_starts, auto_commit.as_deref());
     }
     OWN_TXID.with(|c| c.set(None));
+    OWN_INPUTS.with(|c| c.borrow_mut().clear());
     Some(tx)
   }
 
